@@ -1,4 +1,5 @@
 import T4V.Proofs.ConvertAll
+import T4V.Proofs.PostDen
 import T4V.Model.Post
 /-!
 # Property C01 — every point stays in the volume of the cell that owns it (Boolean core)
@@ -82,6 +83,22 @@ theorem exactly_one (env : CEnv) (σ : TSense) (cv : Nat → Bool) (hE : EnvOK e
       have := Denotes.unique this.2 hden
       rw [huniq c' hc' hne] at this
       exact absurd this (by simp)
+
+/-- **Post-processing (proved part)**: de-duplication + renumbering, `remove_empty_volumes` and
+`remove_unused_volumes` keep the denotation of every surviving non-virtual volume and delete only volumes
+that contain no point — for dictionaries with unique keys and every sense assignment at which equally
+defined surfaces have equal senses and the two auxiliary union planes bound nothing.  `Denotes'` reads a
+reference to a deleted volume as ∅; the full-strength statement below (strict `Denotes`) additionally needs
+that no reference to a deleted volume is left, which is not proved (C08 checks it on every written file). -/
+theorem postProcess_preserves_partial (dedup : Bool) (surfs : List (Nat × String)) (u : Nat × Nat)
+    (vols : List (Nat × Vol)) (σ : TSense) (hnd : KeysNodup vols) (hσu : ¬ (σ u.1 = true ∧ σ u.2 = false))
+    (hσeq : ∀ a b ka kb, (a, ka) ∈ surfs → (b, kb) ∈ surfs → ka = kb → σ a = σ b)
+    (k : Nat) (v : Vol) (b : Bool) (hk : dictGet? vols k = some v) (hf : v.fictive = false)
+    (hd : Denotes vols σ k b) :
+    match dictGet? (postProcess dedup surfs u vols).2 k with
+    | some _ => Denotes' (postProcess dedup surfs u vols).2 σ k b
+    | none => b = false :=
+  postProcess_den' dedup surfs u vols σ hnd hσu hσeq k v b hk hf hd
 
 /-- Full-strength statement for the post-processing, **not yet proved** (kept as a definition so
 that it is type-checked and visible): for a sense assignment that respects the de-duplication
